@@ -13,7 +13,7 @@ import traceback
 import h5py
 import numpy as np
 
-from vp import inject, mapworld, oracles, pipeworld as pw
+from vp import gen, inject, mapworld, oracles, pipeworld as pw
 
 PROPERTY = 'C14'
 LEVEL = 'fault_enumeration'
@@ -57,6 +57,12 @@ STAGES = {
         'modules': ['cell_type_mapper.diff_exp.precompute_from_anndata'],
         'mid': ('cell_type_mapper.diff_exp.precompute_from_anndata',
                 '_process_chunk')},
+    'stats_filelist': {
+        # the same stage entered through a list of files (four files of
+        # equal size, one chunk each, one worker per file or pair of files)
+        'modules': ['cell_type_mapper.diff_exp.precompute_from_anndata'],
+        'mid': ('cell_type_mapper.diff_exp.precompute_from_anndata',
+                '_process_chunk')},
     'refmarkers_score': {
         'modules': ['cell_type_mapper.diff_exp.markers'],
         'mid': ('cell_type_mapper.diff_exp.markers',
@@ -89,7 +95,7 @@ REQUIRED_COUNTERS += [f'stage_{s}' for s in STAGES]
 # the dry run of each case; this table only sizes the enumeration)
 MAX_WORKERS = 9
 N_WORKERS_HINT = {
-    'mapping': 4, 'mapping_obsm_only': 4, 'mapping_direct': 4, 'stats': 3, 'refmarkers_score': 2,
+    'mapping': 4, 'mapping_obsm_only': 4, 'mapping_direct': 4, 'stats': 3, 'stats_filelist': 4, 'refmarkers_score': 2,
     'refmarkers_transpose': 4, 'pmask': 2, 'pmask_markers': 2,
     'selection': 3, 'transpose_v2': 3,
 }
@@ -159,6 +165,28 @@ class Env(object):
         mapworld.write_h5ad(self.ref.path, self.ref.X, self.ref.cells,
                             self.ref.genes, encoding='csr',
                             obs_extra=obs_extra)
+        # the same reference as four files of equal size (2 cells per leaf each)
+        m = self.ref.model
+        by_leaf = {lf: [i for i, l in enumerate(self.ref.labels) if l == lf]
+                   for lf in m.leaves}
+        self.ref_parts = []
+        part_cells = {lf: [] for lf in m.leaves}
+        if all(len(v) >= 8 for v in by_leaf.values()):
+            for k in range(4):
+                idx = [by_leaf[lf][2 * k + j] for lf in m.leaves
+                       for j in (0, 1)]
+                pth = self.work / f'ref_part_{k}.h5ad'
+                mapworld.write_h5ad(pth, self.ref.X[idx],
+                                    [self.ref.cells[i] for i in idx],
+                                    self.ref.genes,
+                                    encoding=['csr', 'dense', 'csc',
+                                              'csr'][k])
+                self.ref_parts.append(pth)
+                for i in idx:
+                    part_cells[self.ref.labels[i]].append(self.ref.cells[i])
+        m2 = gen.TaxModel(m.hierarchy, m.nodes, m.parent)
+        m2.cells = part_cells
+        self.ref_parts_tree = m2.to_dict(with_cells=True)
         self.stats = self.work / 'stats.h5'
         self.refm = self.work / 'refm.h5'
         self.pmask = self.work / 'pmask.h5'
@@ -273,6 +301,18 @@ def run_stage(env, stage, out_dir, n_proc=None):
             outs['stats'] = out_dir / 'stats_out.h5'
             pw.run_stats(env.ref, outs['stats'], env.tmp,
                          n_processors=NP(3), rows_at_a_time=4)
+        elif stage == 'stats_filelist':
+            from cell_type_mapper.diff_exp.precompute_from_anndata import (
+                precompute_summary_stats_from_h5ad_list_and_tree)
+            from cell_type_mapper.taxonomy.taxonomy_tree import TaxonomyTree
+            outs['stats'] = out_dir / 'stats_out.h5'
+            with pw.quiet():
+                precompute_summary_stats_from_h5ad_list_and_tree(
+                    data_path_list=[str(p) for p in env.ref_parts],
+                    taxonomy_tree=TaxonomyTree(data=env.ref_parts_tree),
+                    output_path=outs['stats'], rows_at_a_time=100,
+                    normalization='raw', tmp_dir=str(env.tmp),
+                    n_processors=NP(2))
         elif stage in ('refmarkers_score', 'refmarkers_transpose'):
             outs['refm'] = out_dir / 'refm_out.h5'
             pw.run_ref_markers(env.stats, outs['refm'], env.tmp,
@@ -310,7 +350,7 @@ def run_stage(env, stage, out_dir, n_proc=None):
 
 def later_stage_accepts(env, stage, outs):
     """None if nothing acceptable was left, else a description"""
-    if stage == 'stats':
+    if stage in ('stats', 'stats_filelist'):
         p = outs['stats']
         if not p.exists():
             return None
@@ -399,6 +439,39 @@ def run_case(spec, work):
     victim_code = codes[victim] if victim < len(codes) else None
     what = (f'stage={stage} worker={victim}/{n_workers} mode={mode} '
             f'point={point} exit_codes={codes}')
+    if delivered and victim_code == 0 and mode in ('raise', 'sysexit') \
+            and exc is None:
+        # the injected exception was raised inside the victim, yet the
+        # victim exited 0 and the call returned: something inside the
+        # worker caught it.  Harmless only if the result is the one of the
+        # fault-free run (a genuine recovery); otherwise a partial result
+        # passed as success
+        from vp import stage_runner
+
+        def dg(o):
+            try:
+                d = stage_runner.digest_outputs(stage, o, None)
+                d.pop('tied_vote_records', None)
+                return d
+            except Exception as e:          # missing / unreadable output
+                return {'unreadable': repr(e)[:200]}
+        same = dg(outs) == dg(outs0)
+        counters['faults_delivered'] = 1
+        counters['stage_' + stage] = 1
+        if same:
+            counters['failures_absorbed_with_identical_result'] = 1
+            return {'violations': [], 'counters': counters,
+                    'features': [stage, spec['worker'], mode, point],
+                    'nontrivial': True}
+        return {'violations': [{
+                    'sig': f'C14:worker-swallowed-failure[{stage},{point}]',
+                    'msg': f'the injected failure was caught inside the '
+                           f'worker (exit code 0), the call returned '
+                           f'normally and its result differs from the '
+                           f'fault-free run; {what}'}],
+                'counters': counters,
+                'features': [stage, spec['worker'], mode, point],
+                'nontrivial': True}
     if not delivered or victim_code in (0, None):
         return {'violations': [], 'counters': counters,
                 'inconclusive': f'fault not delivered: {what}',
